@@ -550,9 +550,30 @@ fn run_same(ws: &[&str]) -> String {
     let status: u16 = match ws[2].parse() { Ok(s) => s, Err(_) => return BAD.into() };
     let ct = match untok_opt_bytes(ws[3]) { Some(c) => c, None => return BAD.into() };
     let mut body = match untok_bytes(ws[4]) { Some(b) => b, None => return BAD.into() };
-    let pad: usize = match ws[5].parse() { Ok(p) => p, Err(_) => return BAD.into() };
-    body.extend(std::iter::repeat(b' ').take(pad));
-    let reply = Reply { status, ct: ct.clone(), framing: if pad % 2 == 0 { "cl".into() } else { "chunked".into() }, body: body.clone(), fault: "none".into(), flags: vec![], nested: None };
+    // pad[+flag...]: flags obs / reason (circumstances, see Reply.flags), truncated / close_before (faults: the in-memory
+    // client then fails with a transport error of its own)
+    let mut parts = ws[5].split('+');
+    let pad: usize = match parts.next().and_then(|p| p.parse().ok()) { Some(p) => p, None => return BAD.into() };
+    let flags: Vec<String> = parts.map(|s| s.to_string()).collect();
+    let fault = flags.iter().find(|f| *f == "truncated" || *f == "close_before").cloned();
+    // the blanks go INSIDE the document when it is a JSON object (before the closing brace): a reply cut short anywhere
+    // is then no complete document
+    if body.last() == Some(&b'}') {
+        body.pop();
+        body.extend(std::iter::repeat(b' ').take(pad));
+        body.push(b'}');
+    } else {
+        body.extend(std::iter::repeat(b' ').take(pad));
+    }
+    let reply = Reply {
+        status,
+        ct: ct.clone(),
+        framing: if pad % 2 == 0 || fault.is_some() { "cl".into() } else { "chunked".into() },
+        body: body.clone(),
+        fault: fault.clone().unwrap_or_else(|| "none".into()),
+        flags: flags.iter().filter(|f| *f == "obs" || *f == "reason").cloned().collect(),
+        nested: None,
+    };
     let listener = TcpListener::bind("127.0.0.1:0").unwrap();
     let port = listener.local_addr().unwrap().port();
     let (done_tx, done_rx) = mpsc::channel();
@@ -598,6 +619,9 @@ fn run_same(ws: &[&str]) -> String {
             call_adapter(&adapter, r).map_err(AdErr)
         };
         let in_memory = |_r: HttpRequest| -> Result<HttpResponse, AdErr> {
+            if fault.is_some() {
+                return Err(AdErr("connection fault".into()));
+            }
             let mut b = http::Response::builder().status(status);
             if let Some(ct) = &ct {
                 for one in ct.split(|c| *c == b'\n') {
